@@ -5,10 +5,12 @@ import ast
 import itertools
 import json
 
+from sa import pat as _pat
 from sa import source
-from sa.cfg import cfg_of, guards
+from sa.cfg import cfg_of, conjuncts, guards, negate
+from sa.classes import is_logging_stmt
 from sa.source import AnchorMissing, dotted, is_self_attr, last_attr, local_defs, package_calls, params_of, short, u, walk_body
-from sa.sym import UnknownAtom, comparison
+from sa.sym import UnknownAtom, bool_eval, oriented
 from sa.tables import Outcome, Unsupported, decide, const_value
 
 _L = "esrally/track/loader.py"
@@ -27,10 +29,11 @@ def emptiness_test(test, obj_text):
     forms_obj = {obj_text, f"{obj_text}.tasks", f"list({obj_text})"}
     if u(t) in forms_obj:
         return "empty" if neg else "nonempty"
-    c = comparison(t)
+    is_len = lambda x: isinstance(x, ast.Call) and dotted(x.func) == "len" and len(x.args) == 1 and u(x.args[0]) in forms_obj  # noqa: E731
+    c = oriented(t, is_len)  # the len(...) operand on the left, whichever way round the comparison is written
     if c:
         l, op, r = c
-        if isinstance(l, ast.Call) and dotted(l.func) == "len" and u(l.args[0]) in forms_obj and isinstance(r, ast.Constant) and r.value in (0, 1):
+        if isinstance(r, ast.Constant) and r.value in (0, 1) and not isinstance(r.value, bool):
             k = r.value
             res = {("==", 0): "empty", (">", 0): "nonempty", ("!=", 0): "nonempty", ("<", 1): "empty", (">=", 1): "nonempty", ("<=", 0): "empty"}.get((op, k))
             if res:
@@ -63,15 +66,20 @@ def run(chk):
              "(otherwise descend); spec parsing: 1 part => name, type: => operation type, tag: => tag, else reject; filter classes compare the right fields; a parallel element "
              "matches iff some leaf matches; tags are a list", 16,
              "include keeps / exclude removes the wrong tasks for some filter list")
+    if len(params_of(fo)) < 2:
+        raise AnchorMissing("_filter_out_match(self, <task>): the task parameter")
     tp = params_of(fo)[1]
+    PARALLEL_TESTS = ("hasattr({0}, 'tasks')", "isinstance({0}, Parallel)", "isinstance({0}, track.Parallel)")
 
     def atom(n, env):
-        t = u(n)
-        if t in (f"hasattr({tp}, 'tasks')", f"isinstance({tp}, Parallel)", f"isinstance({tp}, track.Parallel)"):
+        if _pat.is_(n, *(p_.format(tp) for p_ in PARALLEL_TESTS)):
             return env["parallel"]
+        t = u(n)
         if t == "self.exclude":
             return env["exclude"]
         if isinstance(n, ast.Call) and u(n.func) == f"{tp}.matches":
+            return env["match"]
+        if _pat.is_(n, f"any({tp}.matches(V_f) for V_f in self.filters)", f"any([{tp}.matches(V_f) for V_f in self.filters])"):
             return env["match"]
         return None
 
@@ -93,8 +101,6 @@ def run(chk):
             if out.kind != "return":
                 chk.ob("O11.1", inst, False, fo, f"no decision ({out.text()})")
                 continue
-            from sa.sym import bool_eval
-
             got = bool_eval(out.value, lambda n: atom(n, env))
         except (Unsupported, UnknownAtom) as e:
             chk.unknown("O11.1", f"_filter_out_match is not a decision over (exclude, parallel, match): {e}", fo)
@@ -139,10 +145,14 @@ def run(chk):
         chk.ob("O11.1", f"include list {'given' if inc_given else 'absent'}, exclude list {'given' if exc_given else 'absent'} => {'include' if inc_given else 'exclude'} mode on that list", ok, init,
                f"exclude := {u(mode[-1].value) if mode else '?'}; filters built from {fed_t}", key=f"{_L}:TaskFilterTrackProcessor.__init__:mode:{inc_given}|{exc_given}")
     # spec parsing, decided on VALUES: the item is split on ':' and handed on verbatim (case preserved)
+    if len(params_of(ff)) < 2:
+        raise AnchorMissing("_filters_from_filtered_tasks(self, <items>): the items parameter")
     floops = [n for n in walk_body(ff) if isinstance(n, ast.For) and u(n.iter) == params_of(ff)[1]]
     if not floops:
         raise AnchorMissing("loop over the filter items in _filters_from_filtered_tasks")
     FL = floops[0]
+    if not isinstance(FL.target, ast.Name):
+        raise AnchorMissing("loop variable of the loop over the filter items in _filters_from_filtered_tasks")
     item = FL.target.id
     SAMPLES = [("Bulk-EU", ("TaskNameFilter", "Bulk-EU")), ("type:followerStats", ("TaskOpTypeFilter", "followerStats")), ("tag:regionEU", ("TaskTagFilter", "regionEU")),
                ("kind:x", ("raise", None)), ("a:b:c", ("raise", None)), ("Type:search", ("raise", None))]
@@ -190,37 +200,134 @@ def run(chk):
                 except minieval.CannotEval as e:
                     got = f"{short(cons[0], 60)} (not evaluable: {e})"
         chk.ob("O11.1", f"spec parsing: item {text!r} => {wk}{'(' + repr(wv) + ')' if wv else ''}", ok, FL, f"got {got}", key=f"{_L}:_filters_from_filtered_tasks:item:{text}")
-    # filter classes
-    for cname, expr in (("TaskNameFilter", ("self.name == task.name", "task.name == self.name")), ("TaskOpTypeFilter", ("self.op_type == task.operation.type", "task.operation.type == self.op_type")),
-                        ("TaskTagFilter", ("self.tag_name in task.tags",))):
+    # filter classes: the single return compares the stored attribute with the right field of the task PARAMETER (either orientation)
+    for cname, attr, pattern in (("TaskNameFilter", "name", "self.name == {0}.name"), ("TaskOpTypeFilter", "op_type", "self.op_type == {0}.operation.type"), ("TaskTagFilter", "tag_name", "self.tag_name in {0}.tags")):
         c = trk.cls(cname)
         m = trk.methods(c).get("matches")
         rets = [n for n in walk_body(m) if isinstance(n, ast.Return)] if m else []
-        ok = len(rets) == 1 and u(rets[0].value) in expr
+        ok = len(rets) == 1 and len(params_of(m)) >= 2 and _pat.is_(rets[0].value, pattern.format(params_of(m)[1]))
         chk.ob("O11.1", f"{cname}.matches", ok, m if m else c, short(rets[0], 60) if rets else "")
         ini = trk.methods(c).get("__init__")
-        attr = expr[0].split(" ")[0].split(".")[1]
-        ok = ini is not None and any(isinstance(n, ast.Assign) and is_self_attr(n.targets[0], attr) and u(n.value) == params_of(ini)[1] for n in walk_body(ini))
+        ok = ini is not None and len(params_of(ini)) >= 2 and any(isinstance(n, ast.Assign) and is_self_attr(n.targets[0], attr) and u(n.value) == params_of(ini)[1] for n in walk_body(ini))
         chk.ob("O11.1", f"{cname} stores its argument", ok, ini if ini else c, "")
+    # a parallel element matches iff some leaf matches: Parallel.matches EVALUATED on representative leaf results (no leaf, one, several, match first / last / never)
     PA = trk.cls("Parallel")
     pmt = trk.methods(PA).get("matches")
-    ok = False
-    if pmt is not None:
-        fl = [n for n in walk_body(pmt) if isinstance(n, ast.For) and is_self_attr(n.iter, "tasks")]
-        anyc = [n for n in walk_body(pmt) if isinstance(n, ast.Call) and dotted(n.func) == "any"]
-        if fl:
-            b = fl[0].body
-            ok = len(b) == 1 and isinstance(b[0], ast.If) and isinstance(b[0].test, ast.Call) and last_attr(b[0].test.func) == "matches" and isinstance(b[0].body[0], ast.Return) and source.is_const(b[0].body[0].value, True) \
-                and isinstance(pmt.body[-1], ast.Return) and source.is_const(pmt.body[-1].value, False)
-        elif anyc:
-            ok = True
-    chk.ob("O11.1", "a parallel element matches iff some leaf matches", ok, pmt if pmt is not None else PA, "")
+    ok, det = False, "Parallel.matches not found"
+    if pmt is not None and len(params_of(pmt)) >= 2:
+        fparam = params_of(pmt)[1]
+
+        def leaf_call(n, var):
+            return isinstance(n, ast.Call) and last_attr(n.func) == "matches" and isinstance(n.func.value, ast.Name) and n.func.value.id == var and len(n.args) == 1 and u(n.args[0]) == fparam
+
+        def pm_eval(leaves):
+            def atom_p(n, env):
+                if env.get("var") is not None and leaf_call(n, env["var"]):
+                    return env["leaf"]
+                if isinstance(n, ast.Call) and dotted(n.func) in ("any", "all") and len(n.args) == 1 and isinstance(n.args[0], (ast.GeneratorExp, ast.ListComp)) and len(n.args[0].generators) == 1:
+                    g = n.args[0].generators[0]
+                    if is_self_attr(g.iter, "tasks") and isinstance(g.target, ast.Name) and not g.is_async:
+                        vals = [bool_eval(n.args[0].elt, lambda x, v=v: atom_p(x, {"var": g.target.id, "leaf": v})) for v in leaves
+                                if all(bool_eval(c_, lambda x, v=v: atom_p(x, {"var": g.target.id, "leaf": v})) for c_ in g.ifs)]
+                        return any(vals) if dotted(n.func) == "any" else all(vals)
+                return None
+
+            jump_b = {}
+
+            def on_stmt_p(s_, env, b_):
+                if is_logging_stmt(s_):
+                    return "skip"
+                if isinstance(s_, (ast.Break, ast.Continue)):
+                    jump_b["b"] = dict(b_)  # locals bound so far on the path that leaves the iteration here
+                if env.get("var") is not None and isinstance(s_, ast.Assign) and len(s_.targets) == 1 and isinstance(s_.targets[0], ast.Name):
+                    # a flag computed from the current leaf is fixed now (the leaf variable means something else in the next iteration)
+                    def at_(x):
+                        if isinstance(x, ast.Name) and b_.get(x.id) is not None:
+                            return bool_eval(b_[x.id], at_)
+                        return atom_p(x, env)
+
+                    try:
+                        b_[s_.targets[0].id] = ast.Constant(value=bool_eval(s_.value, at_))
+                        return "skip"
+                    except UnknownAtom:
+                        return None
+                if isinstance(s_, ast.For) and is_self_attr(s_.iter, "tasks") and isinstance(s_.target, ast.Name):
+                    broke = False
+                    for v in leaves:
+                        o_ = decide(s_.body, atom_p, {"var": s_.target.id, "leaf": v}, b_, on_stmt_p)
+                        if o_.kind == "return" and o_.value is not None:
+                            o_.value = ast.Constant(value=bool_eval(o_.value, lambda x, v=v: atom_p(x, {"var": s_.target.id, "leaf": v})))  # a result computed from the current leaf is fixed here
+                        if o_.kind in ("return", "raise"):
+                            return o_
+                        b_.update(jump_b.pop("b", {}) if o_.kind in ("break", "continue") else getattr(o_, "bindings", {}))
+                        if o_.kind == "break":
+                            broke = True
+                            break
+                    if s_.orelse and not broke:
+                        o_ = decide(s_.orelse, atom_p, env, b_, on_stmt_p)
+                        if o_.kind != "fallthrough":
+                            return o_
+                        b_.update(getattr(o_, "bindings", {}))
+                    return "skip"
+                return None
+
+            o_ = decide(pmt.body, atom_p, {}, on_stmt=on_stmt_p)
+            if o_.kind != "return" or o_.value is None:
+                raise Unsupported(f"no boolean result ({o_.text()})")
+            return bool_eval(o_.value, lambda x: atom_p(x, {}))
+
+        try:
+            wrong = [lv for lv in ([], [True], [False], [True, False], [False, True], [False, False], [True, True]) if pm_eval(lv) != any(lv)]
+            ok, det = not wrong, ("" if not wrong else f"wrong result for leaf match results {wrong[0]}: {not any(wrong[0])}")
+        except (Unsupported, UnknownAtom) as e:
+            ok, det = False, f"Parallel.matches is not a decision over the leaf match results: {e}"
+    chk.ob("O11.1", "a parallel element matches iff some leaf matches", ok, pmt if pmt is not None else PA, det)
     TK = trk.cls("Task")
     tinit = trk.methods(TK).get("__init__")
+    if tinit is None or "tags" not in params_of(tinit):
+        raise AnchorMissing("Task.__init__(..., tags, ...)")
     tag_stores = [n for n in walk_body(tinit) if isinstance(n, ast.Assign) and any(is_self_attr(t, "tags") for t in n.targets)]
-    wrap = [n for n in tag_stores if isinstance(n.value, ast.List) and len(n.value.elts) == 1 and u(n.value.elts[0]) == "tags" and any(pol and u(t) == "isinstance(tags, str)" for t, pol in guards(n))]
-    chk.ob("O11.1", "a single tag given as a string is wrapped into a list (tag filter is membership, not substring)", bool(wrap), tag_stores[0] if tag_stores else tinit,
-           "" if wrap else "tags may stay a plain string: `tag in task.tags` becomes a substring test")
+
+    def tags_after_init(value):
+        """self.tags after Task.__init__ for one concrete `tags` argument, EVALUATED (whatever the shape / polarity / arm order of the normalising code)."""
+        cur_t = {}
+
+        def env_t(bnd):
+            env_ = {"tags": value}
+            for _ in range(3):
+                for k_, v_ in bnd.items():
+                    if v_ is not None and k_ not in env_:
+                        try:
+                            env_[k_] = minieval.ev(v_, dict(env_))
+                        except minieval.CannotEval:
+                            pass
+            return env_
+
+        def hook_t(s_, env, b_):
+            cur_t["b"] = b_
+            return "skip" if is_logging_stmt(s_) else None
+
+        def atom_t(n, env):
+            try:
+                return bool(minieval.ev(n, env_t(cur_t.get("b", {}))))
+            except minieval.CannotEval:
+                return None
+
+        o_ = decide(tinit.body, atom_t, {}, on_stmt=hook_t)
+        st = [e_ for e_ in o_.effects if isinstance(e_, ast.Assign) and any(is_self_attr(t, "tags") for t in e_.targets)]
+        if o_.kind not in ("fallthrough", "return") or not st:
+            raise Unsupported(f"no store to self.tags for tags={value!r}")
+        return minieval.ev(st[-1].value, env_t(getattr(o_, "bindings", {})))
+
+    try:
+        got_t = tags_after_init("regionEU")
+        wrap = isinstance(got_t, (list, tuple, set)) and list(got_t) == ["regionEU"]
+        det_t = "" if wrap else f"tags='regionEU' is stored as {got_t!r}: tags may stay a plain string: `tag in task.tags` becomes a substring test"
+    except (Unsupported, UnknownAtom, minieval.CannotEval):
+        # not evaluable: fall back to the guard facts of the wrapping store (polarity-insensitive)
+        wrap = any(isinstance(n.value, ast.List) and len(n.value.elts) == 1 and u(n.value.elts[0]) == "tags" and _pat.guarded(n, "isinstance(tags, str)", stop=tinit) is not None for n in tag_stores)
+        det_t = "" if wrap else "tags may stay a plain string: `tag in task.tags` becomes a substring test"
+    chk.ob("O11.1", "a single tag given as a string is wrapped into a list (tag filter is membership, not substring)", bool(wrap), tag_stores[0] if tag_stores else tinit, det_t)
     tm = trk.methods(TK).get("matches")
     ok = tm is not None and any(isinstance(n, ast.Return) and isinstance(n.value, ast.Call) and last_attr(n.value.func) == "matches" and u(n.value.args[0]) == "self" for n in walk_body(tm))
     chk.ob("O11.1", "Task.matches delegates to the filter", ok, tm if tm is not None else TK, "")
@@ -229,7 +336,37 @@ def run(chk):
     chk.rule("O11.2", "every site that can shrink a parallel element is followed, on every path that keeps the element, by an emptiness test of that element whose empty edge removes it from the challenge; "
              "the schema forbids empty `tasks` on load", 3,
              "--exclude-tasks matching every task of a parallel element (also through several filters that only together cover it) leaves an empty parallel element in the schedule")
-    shrink = [c for c in package_calls(repo, "remove_task") if isinstance(c.func, ast.Attribute) and not (isinstance(c.func.value, ast.Name) and c.func.value.id == "challenge")]
+
+    def strip_sel(e):
+        """the collection expression under slices / list() / reversed() / .copy() wrappers (what KIND of object is iterated, not how much of it)."""
+        while True:
+            if isinstance(e, ast.Subscript):
+                e = e.value
+            elif isinstance(e, ast.Call) and dotted(e.func) in ("list", "reversed", "sorted", "tuple", "iter") and len(e.args) == 1:
+                e = e.args[0]
+            elif isinstance(e, ast.Call) and isinstance(e.func, ast.Attribute) and e.func.attr == "copy" and not e.args:
+                e = e.func.value
+            else:
+                return e
+
+    def is_challenge_receiver(c):
+        """the receiver of this remove_task call is a CHALLENGE (not a schedule element), decided by role: a parameter called `challenge`, the loop variable of a loop over
+        `<x>.challenges`, or a name whose `.schedule` is iterated in the same function (only challenges have a schedule that is iterated element-wise)."""
+        r_ = c.func.value
+        if not isinstance(r_, ast.Name):
+            return False
+        fn_ = source.enclosing_func(c)
+        if fn_ is None:
+            return False
+        if r_.id == "challenge" and r_.id in params_of(fn_):
+            return True
+        for a in source.ancestors(c):
+            if isinstance(a, ast.For) and isinstance(a.target, ast.Name) and a.target.id == r_.id and isinstance(strip_sel(a.iter), ast.Attribute) and strip_sel(a.iter).attr == "challenges":
+                return True
+        return any(isinstance(n, (ast.For, ast.comprehension)) and isinstance(strip_sel(n.iter), ast.Attribute) and strip_sel(n.iter).attr == "schedule" and isinstance(strip_sel(n.iter).value, ast.Name)
+                   and strip_sel(n.iter).value.id == r_.id for n in ast.walk(fn_))
+
+    shrink = [c for c in package_calls(repo, "remove_task") if isinstance(c.func, ast.Attribute) and not is_challenge_receiver(c)]
     shrink = [c for c in shrink if source.enclosing_class(c) is not None and source.enclosing_class(c).name != "Parallel"]
     if not shrink:
         raise AnchorMissing("call site removing a sub-task from a parallel element")
@@ -243,16 +380,22 @@ def run(chk):
             chk.ob("O11.2", f"{source.qualname(c)}: shrink of {obj}", False, c, "shrink site is not inside a loop over the schedule elements")
             continue
         OL = outer[0]
-        tests = []
+        parallel_tests = [p_.format(obj) for p_ in PARALLEL_TESTS]
+
+        def removing(arm):
+            return [x for s in arm for x in ast.walk(s) if isinstance(x, ast.Call) and last_attr(x.func) in ("append", "remove_task", "remove") and x.args and u(x.args[0]) == obj]
+
+        # an emptiness test is an `if` one of whose ARMS (true arm: the conjuncts of the test; false arm: the conjuncts of its negation) is entered exactly when the element is an
+        # emptied parallel element, and that arm removes the element -- whichever arm it is and however the test is written
+        tests, arms = [], {}
         for n in ast.walk(OL):
             if isinstance(n, ast.If):
-                atoms = n.test.values if isinstance(n.test, ast.BoolOp) and isinstance(n.test.op, ast.And) else [n.test]
-                kinds = [emptiness_test(a, obj) for a in atoms]
-                if "empty" in kinds:
-                    others_ok = all(k == "empty" or u(a) in (f"isinstance({obj}, Parallel)", f"hasattr({obj}, 'tasks')", f"isinstance({obj}, track.Parallel)") for a, k in zip(atoms, kinds))
-                    removes = any(isinstance(x, ast.Call) and last_attr(x.func) in ("append", "remove_task", "remove") and x.args and u(x.args[0]) == obj for s in n.body for x in ast.walk(s))
-                    if others_ok and removes:
+                for arm, fs in ((n.body, conjuncts(n.test)), (n.orelse, conjuncts(negate(n.test)))):
+                    kinds = [emptiness_test(a, obj) for a in fs]
+                    if arm and "empty" in kinds and all(k == "empty" or _pat.is_(a, *parallel_tests) for a, k in zip(fs, kinds)) and removing(arm):
                         tests.append(n)
+                        arms[id(n)] = arm
+                        break
         cn = gfn.node_of(c)
         head = gfn.node_of(OL)
         tn = [gfn.node_of(t) for t in tests]
@@ -263,7 +406,7 @@ def run(chk):
                key=f"{_L}:{source.qualname(c)}:empty-check-after-shrink")
         # the collected elements are really removed from the challenge afterwards
         if tests:
-            coll = [x for s in tests[0].body for x in ast.walk(s) if isinstance(x, ast.Call) and last_attr(x.func) == "append" and u(x.args[0]) == obj]
+            coll = [x for x in removing(arms[id(tests[0])]) if last_attr(x.func) == "append"]
             if coll:
                 lst = u(coll[0].func.value)
                 rm = [n for n in walk_body(fn) if isinstance(n, ast.For) and u(n.iter) == lst and any(isinstance(x, ast.Call) and last_attr(x.func) == "remove_task" for x in ast.walk(n))]
@@ -309,7 +452,8 @@ def run(chk):
     for cname in ("Challenge", "Parallel"):
         c = trk.cls(cname)
         rt = trk.methods(c).get("remove_task")
-        ok = rt is not None and len(rt.body) == 1 and isinstance(rt.body[0], ast.Expr) and isinstance(rt.body[0].value, ast.Call) and last_attr(rt.body[0].value.func) == "remove"
+        rb = [s_ for s_ in rt.body if not is_logging_stmt(s_) and not (isinstance(s_, ast.Expr) and isinstance(s_.value, ast.Constant))] if rt is not None else []  # logging / docstring do not count
+        ok = rt is not None and len(rb) == 1 and isinstance(rb[0], ast.Expr) and isinstance(rb[0].value, ast.Call) and last_attr(rb[0].value.func) == "remove"
         chk.ob("O11.3", f"{cname}.remove_task is a plain list removal", ok, rt if rt else c, "")
     # all challenges are filtered; leaves of kept parallels are filtered individually
     chl = [n for n in walk_body(oa) if isinstance(n, ast.For) and u(n.iter).endswith(".challenges")]
@@ -318,7 +462,6 @@ def run(chk):
     chk.ob("O11.3", "every challenge is filtered (the loop over the challenges runs to the end)", ok, jumps[0] if jumps else oa,
            "" if ok else ("the loop over the challenges is left early: later challenges keep their unfiltered schedule" if chl else "no loop over the challenges"),
            key=f"{_L}:TaskFilterTrackProcessor.on_after_load_track:all-challenges")
-    from sa import pat as _pat
     early = [n for n in walk_body(oa) if isinstance(n, ast.Return) and guards(n)]
     ok = all(_pat.guarded(n, "not self.filters") is not None for n in early)
     chk.ob("O11.3", "early return only without filters", ok, early[0] if early else oa, "")
@@ -362,5 +505,15 @@ VARIANTS = [
     # preserving
     V("isinstance instead of hasattr", "keep", _L, "                if hasattr(task, \"tasks\") and self.exclude:", "                if isinstance(task, Parallel) and self.exclude:"),
     V("emptiness via not task.tasks", "keep", _L, "                    if isinstance(task, Parallel) and len(task.tasks) == 0:", "                    if isinstance(task, Parallel) and not task.tasks:"),
+    V("emptiness test in the else arm, flipped comparison", "keep", _L, "                    if isinstance(task, Parallel) and len(task.tasks) == 0:\n                        tasks_to_remove.append(task)\n", "                    if not isinstance(task, Parallel) or 0 < len(task.tasks):\n                        pass\n                    else:\n                        tasks_to_remove.append(task)\n"),
+    V("else arm keeps the emptied element", "break", _L, "                    if isinstance(task, Parallel) and len(task.tasks) == 0:\n                        tasks_to_remove.append(task)\n", "                    if not isinstance(task, Parallel) or len(task.tasks) == 0:\n                        pass\n                    else:\n                        tasks_to_remove.append(task)\n", "O11.2"),
+    V("parallel matches via any()", "keep", _T, "        for task in self.tasks:\n            if task.matches(task_filter):\n                return True\n        return False", "        return any(task.matches(task_filter) for task in self.tasks)"),
+    V("parallel matches via all()", "break", _T, "        for task in self.tasks:\n            if task.matches(task_filter):\n                return True\n        return False", "        return all(task.matches(task_filter) for task in self.tasks)", "O11.1"),
+    V("parallel matches via flag and break", "keep", _T, "        for task in self.tasks:\n            if task.matches(task_filter):\n                return True\n        return False", "        found = False\n        for task in self.tasks:\n            if task.matches(task_filter):\n                found = True\n                break\n        return found"),
+    V("parallel matches: first leaf only", "break", _T, "        for task in self.tasks:\n            if task.matches(task_filter):\n                return True\n        return False", "        for task in self.tasks:\n            return task.matches(task_filter)\n        return False", "O11.1"),
+    V("tags normalised in one conditional expression", "keep", _T, "        if isinstance(tags, str):\n            self.tags = [tags]\n        elif tags:\n            self.tags = tags\n        else:\n            self.tags = []", "        self.tags = [tags] if isinstance(tags, str) else (tags if tags else [])"),
+    V("string tags no longer wrapped (wrong type tested)", "break", _T, "        if isinstance(tags, str):\n            self.tags = [tags]\n        elif tags:", "        if isinstance(tags, list):\n            self.tags = [tags]\n        elif tags:", "O11.1"),
+    V("name filter comparison flipped", "keep", _T, "        return self.name == task.name", "        return task.name == self.name"),
+    V("match loop as any()", "keep", _L, "        for f in self.filters:\n            if task.matches(f):\n                if hasattr(task, \"tasks\") and self.exclude:\n                    return False\n                return self.exclude\n        return not self.exclude", "        if any(task.matches(f) for f in self.filters):\n            if self.exclude and hasattr(task, \"tasks\"):\n                return False\n            return self.exclude\n        return not self.exclude"),
     V("max with default 1", "keep", _D, "        max_clients = 1\n        for task in self.schedule:\n            max_clients = max(max_clients, task.clients)\n        return max_clients", "        return max((task.clients for task in self.schedule), default=1)"),
 ]
